@@ -337,20 +337,23 @@ class Derivation(Constraint):
             if not f.applies_to_trial(n//sustain_count + 1):
                 continue
             num_levels = len(f.levels)
-            get_trial_size = lambda x: trial_size if x < block.grid_variables() else len(block.decode_variable(x+1)[0].levels)
+            # `x` was shifted by its position in the window; whether it is a grid variable is decided by where it started
+            def get_trial_size(x, pos):
+                base = x - (pos % window.width) * sustain_count * trial_size
+                return trial_size if base < block.grid_variables() else len(block.decode_variable(base+1)[0].levels)
 
             # Only keep clauses where all `BeforeStarts` apply and all indices are in range:
             ands = []
             for l in self.dependent_idxs:
                 vars = cast(List[int], [])
                 ok = True
-                for x in l:
+                for pos, x in enumerate(l):
                     if isinstance(x, BeforeStart):
                         if x.ready_at <= n:
                             ok = False
                             break
                     else:
-                        new_x = x + ((t + delta) * window.stride * get_trial_size(x) + 1)
+                        new_x = x + ((t + delta) * window.stride * get_trial_size(x, pos) + 1)
                         if new_x <= 0:
                             ok = False
                             break
